@@ -749,7 +749,7 @@ def types_oracle(g, text):
     te = [d for d in defs if d[1] is not None and d[1].startswith('pub enum %s {' % g.tenum)]
     if len(te) != 1:
         return 'terminal enum not found'
-    body = [l.strip() for l in te[0][2][:-1]]
+    body = [l.strip() for l in te[0][2][:-1] if l.strip()]
     if len(body) != len(g.terminals):
         return 'terminal enum has %d variants, expected %d' % (len(body), len(g.terminals))
     for l, (t, ty) in zip(body, g.terminals):
